@@ -26,7 +26,7 @@ def run_structural(chk, F):
         probs, cprobs, eprobs = [], [], []
         convs = set()
         rev = False
-        paths = mir.Walker(b, unroll=0).run()
+        paths = mir.walk_inline(b, F, unroll=0)
         nok = 0
         for p in paths:
             for ev in p.calls():
@@ -43,8 +43,16 @@ def run_structural(chk, F):
                 if not okl:
                     cprobs.append("returns Ok(%s)" % mir.fmt(r[4][0])[:50])
             # error paths: a failed read_bits/write_bits must surface as Err
-            fails = [c[0][1][1] for c in p.constraints if c[0][0] == "discr" and c[0][1][0] == "try" and c[1] == "==" and c[2] == 1]
-            if fails and p.end[0] == "return" and not (isinstance(r, tuple) and r[0] == "from_residual"):
+            # (`x?` tests discr(try(x)), `match x { Err(..) => .. }` tests discr(x))
+            fails = []
+            for c in p.constraints:
+                if c[0][0] == "discr" and c[1] == "==" and c[2] == 1:
+                    x = c[0][1][1] if c[0][1][0] == "try" else c[0][1]
+                    while isinstance(x, tuple) and x and x[0] == "maperr":
+                        x = x[1]
+                    if isinstance(x, tuple) and x and x[0] == "ret" and x[2].startswith("traits::bits::Bit"):
+                        fails.append(x)
+            if fails and p.end[0] == "return" and not (isinstance(r, tuple) and (r[0] == "from_residual" or (r[0] == "agg" and r[3] == "Err"))):
                 eprobs.append("a failed operation does not end in Err")
         if convs != {e}:
             probs.append("%s stream converts with %s" % (e.upper(), sorted(convs)))
